@@ -112,6 +112,35 @@ def rule_qr_carry(model: Model):
     return obs
 
 
+_NORM_DIV_FIXTURE = '''
+def p(G):
+    nrm = tn.linalg.norm(G)
+    G = G / nrm
+    return G, tn.log(nrm)
+
+def q(G):
+    nrm = tn.linalg.norm(G)
+    if nrm > 0:
+        G = G / nrm
+    return G
+'''
+
+
+def _norm_div_fixture(model: Model):
+    """the rule must flag the unguarded example and accept the guarded twin (its count on the real tree is zero)"""
+    import dataclasses
+    from ..normguard import rule_norm_division
+    from ..model import Func
+    tree = ast.parse(_NORM_DIV_FIXTURE)
+    host = model.func("_tt_base.TT.norm")
+    res = {}
+    for fn in tree.body:
+        res[fn.name] = rule_norm_division(model, "fixture." + fn.name, func=dataclasses.replace(host, node=fn))
+    ok = any(o.status == VIOLATED for o in res["p"]) and res["q"] and all(o.status == OK for o in res["q"])
+    return [Ob("NORM-DIV", "fixture:NORM-DIV:positive-example", OK if ok else ERROR, "ttsa/props/c07.py", "_NORM_DIV_FIXTURE",
+               "the built-in positive example is flagged and its guarded twin is not" if ok else "the NORM-DIV rule no longer recognises its positive example")]
+
+
 def check(model: Model, tier: str):
     obs = e5ob.for_property(model, "C07", tier)
     scope = [model.func(a) for a in ANCHORS]
@@ -119,6 +148,12 @@ def check(model: Model, tier: str):
     obs += rules.rule_defassign(model, scope)
     from .common import cross_reference
     obs += cross_reference(rule_qr_carry(model), [o for o in obs if o.rule.startswith("E5") and "norm:qr" in o.key], "E5 scenarios norm:qr.d1-d3")
+    # the zero tensor is in the domain of every function here: no division by (logarithm of) an untested norm (added after seed S5-C07-2);
+    # today's tree has no such division, the built-in example keeps the rule honest
+    from ..normguard import rule_norm_division
+    for a in ANCHORS:
+        obs += rule_norm_division(model, a)
+    obs += _norm_div_fixture(model)
     from . import c18
     obs += [o for o in c18.rule_axis_range(model) if "sum" in o.key or "dot" in o.key]
     return obs, {"functions": ANCHORS}
